@@ -1033,6 +1033,60 @@ func c24RunSpace(r *mc.R, cfg c24Config, alphabet []int, depth int, p c24Params,
 	})
 }
 
+// c24TornMetaProbe is informational (it never raises a violation): it drops the assumption
+// that the two write calls of a *.meta rewrite (rlp.Encode emits the list header and the
+// payload separately) are one atomic unit and stops the process between them, with nothing
+// else lost, on a history where the encoded length of the metadata changes (flush offset
+// crossing 127/128 bytes in both directions). The outcome histogram records whether
+// NewFreezer can still open the directory.
+func c24TornMetaProbe(r *mc.R) {
+	cfg := c24Configs[1]
+	s, err := c24NewSys(cfg, false)
+	if err != nil {
+		r.Outcome("INFO torn-meta probe: setup failed")
+		return
+	}
+	defer s.close()
+	sizes := make([]int, 22)
+	for i := range sizes {
+		sizes[i] = 2
+	}
+	if err := s.appendItems(sizes); err != nil {
+		return
+	}
+	if err := s.f.SyncAncient(); err != nil {
+		return
+	}
+	if _, err := s.f.TruncateHead(1); err != nil {
+		return
+	}
+	evs := s.fs.Events()
+	for k := 1; k <= len(evs); k++ {
+		e := evs[k-1]
+		if e.Kind != vos.EvWrite || !c24IsMeta(e.Name) {
+			continue
+		}
+		cp := s.fs.CrashAt(k, false)
+		img := cp.Build(vos.Pattern{NS: len(cp.Pending)})
+		tag := c24Diagnose(img, cfg)
+		err := mc.Safely(func() error {
+			f, err := c24Open(img, cfg)
+			if err == nil {
+				f.Close()
+			}
+			return err
+		})
+		r.Eval(1)
+		switch {
+		case err == nil:
+			r.Outcome("INFO torn-meta probe (process stops after a *.meta write call, nothing lost): reopen ok")
+		default:
+			r.Outcome(fmt.Sprintf("INFO torn-meta probe (process stops between the two write calls of a *.meta rewrite, nothing lost) [%s]: NewFreezer fails: %s", tag, c24Class(err)))
+		}
+		img.Release()
+	}
+}
+
 func TestVerif_C24(t *testing.T) {
 	mc.Run(t, "C24", func(r *mc.R) {
 		r.Rule("every enabled operation sequence up to the depth bound over {append 1 small, append medium+large, SyncAncient, TruncateHead(-1/-2), " +
@@ -1047,7 +1101,7 @@ func TestVerif_C24(t *testing.T) {
 		seen := &sync.Map{}
 		fd := &c24Findings{class: map[string]*c24Finding{}}
 		defer fd.report(r)
-		p := c24Params{full: false, productCap: 300, maxDev: 1, nested: true, cont: true, mergeMeta: true, tries: 24, post: &sync.Map{}}
+		p := c24Params{full: false, productCap: 100, maxDev: 1, nested: true, cont: true, mergeMeta: true, tries: 24, post: &sync.Map{}}
 		depth := 3
 		if r.Thorough() {
 			p.full = true
@@ -1062,6 +1116,9 @@ func TestVerif_C24(t *testing.T) {
 		full := []int{c24OpApp1, c24OpApp2, c24OpSync, c24OpTH1, c24OpTH2, c24OpTT1, c24OpTT2, c24OpTTOver, c24OpReopen}
 		c24RunSpace(r, c24Configs[0], full, depth, p, seen, fd)
 		c24RunSpace(r, c24Configs[1], full, depth, p, seen, fd)
+		if !r.Replaying() {
+			c24TornMetaProbe(r)
+		}
 		if r.Thorough() {
 			c24RunSpace(r, c24Configs[2], []int{c24OpApp1, c24OpApp2, c24OpSync, c24OpTH1, c24OpTT1, c24OpTT2}, 3, p, seen, fd)
 		}
